@@ -51,6 +51,8 @@ type callScript struct {
 	code         codes.Code
 	msg          string
 	interleaved  bool // respond while still receiving
+	delay        time.Duration // time the backend takes before it answers (C18)
+	hang         bool          // never answer: wait until the stream is torn down (C18)
 }
 
 type callRecord struct {
@@ -133,6 +135,17 @@ func (h *grpcHarness) handler(b *grpcBackend) grpc.StreamHandler {
 		} else {
 			recvErr = recvAll()
 			close(done)
+		}
+		if sc.hang {
+			<-stream.Context().Done()
+			return status.Error(codes.Canceled, "harness: hung stream torn down")
+		}
+		if sc.delay > 0 {
+			select {
+			case <-time.After(sc.delay):
+			case <-stream.Context().Done():
+				return status.Error(codes.Canceled, "harness: torn down while working")
+			}
 		}
 		if len(sc.respHeaders) > 0 {
 			stream.SetHeader(sc.respHeaders)
@@ -568,6 +581,38 @@ func TestC16Pool(t *testing.T) {
 	}
 	if err := call("/pool.S1/M"); status.Code(err) != codes.NotFound {
 		t.Fatalf("call to the removed route: %v, want NotFound", err)
+	}
+	// one service with two instances: round robin must reach both (the pool is per backend, not per service)
+	shared := fmt.Sprintf("route add shared /pool.Shared/ grpc://%s opts \"proto=grpc\"\nroute add shared /pool.Shared/ grpc://%s opts \"proto=grpc\"\n", h.backends[0].ln.Addr(), h.backends[2].ln.Addr())
+	tblShared, err := route.NewTable(bytes.NewBufferString(shared))
+	if err != nil {
+		t.Fatal(err)
+	}
+	route.SetTable(tblShared)
+	served := map[int]int{}
+	for i := 0; i < 20; i++ {
+		id := fmt.Sprintf("shared-%d", atomic.AddInt64(&h.seq, 1))
+		h.mu.Lock()
+		h.scripts[id] = callScript{responses: [][]byte{{}}}
+		h.mu.Unlock()
+		ctx, cancel := context.WithTimeout(metadata.NewOutgoingContext(context.Background(), metadata.Pairs("x-call-id", id)), 10*time.Second)
+		var req, resp []byte
+		err := h.conn.Invoke(ctx, "/pool.Shared/M", &req, &resp)
+		cancel()
+		if err != nil {
+			t.Fatalf("call to the shared service failed: %v", err)
+		}
+		h.mu.Lock()
+		if r := h.records[id]; r != nil {
+			served[r.backend]++
+		}
+		delete(h.records, id)
+		delete(h.scripts, id)
+		h.mu.Unlock()
+	}
+	hx.EvalN(20)
+	if served[0] != 10 || served[2] != 10 {
+		t.Fatalf("20 round-robin calls to a service with two instances were served %v, want 10 each by backends 0 and 2", served)
 	}
 	// coming back works
 	set(0, 1)
